@@ -7,6 +7,7 @@ import (
 	"encoding/json"
 	"fmt"
 	"reflect"
+	"regexp"
 	"runtime/debug"
 	"sort"
 	"strings"
@@ -175,11 +176,14 @@ func checkJSON(api *serix.API, rec *recorder, n *serixgen.Node) {
 			rec.fail("json-roundtrip|decode-rejects-encode-output|"+firstKind(n), n.Name, fmt.Sprintf("JSONDecode rejects %s produced by JSONEncode for %s: %v", js, n.Canon(v), err), rp)
 			continue
 		}
-		if got, want := n.Canon(q.Elem()), n.Canon(v); got != want {
+		// the JSON form writes every NaN as "NaN": the payload bits are not expressible, only NaN-ness is compared
+		if got, want := nanRe.ReplaceAllString(n.Canon(q.Elem()), "NaN"), nanRe.ReplaceAllString(n.Canon(v), "NaN"); got != want {
 			rec.fail("json-roundtrip|value-differs|"+firstKind(n), n.Name, fmt.Sprintf("JSONDecode(JSONEncode(v)) = %s, v = %s (json %s)", got, want, js), rp)
 		}
 	}
 }
+
+var nanRe = regexp.MustCompile(`NaN/[0-9a-f]+`)
 
 func classOf(msg string) string {
 	var b strings.Builder
